@@ -100,6 +100,9 @@ def c04_items(tier, rnd):
             # bound with generic arguments, a trailing comma in the list): a predicate is carried over verbatim whatever it looks like
             if rnd.random() < 0.35:
                 Ps[-1]["pred_form"] = rnd.choice(["hrtb", "paren", "tuple", "path", "bound_args", "trailing_comma"])
+            # ... and the Type entries (a fn-pointer type that starts with a binder, parenthesised, a reference, a qualified path, a trait object)
+            if not Ps[-1].get("conc_ty") and rnd.random() < 0.3:
+                Ps[-1]["ty_form"] = rnd.choice(["binder_fn", "paren", "ref", "qpath", "dyn"])
     # fields whose usage state suppresses the DEFAULT bound still contribute their explicit levels:
     # #[default(expr)] with bound(...), on structs and on the default variant of enums
     for ch in itertools.product(A4, repeat=4):
